@@ -3,7 +3,11 @@
    CallLife.v + Graceful.v ([pstep] on a peer, [sstep] on one session); a history is any
    finite list of events, [prun peer0 es = Some p] says every event of [es] was enabled.
    All theorems quantify over ALL histories (and therefore all interleavings of the
-   sessions' goroutines, Close against a concurrent disconnect included). *)
+   sessions' goroutines, Close against a concurrent disconnect included).  An accept is two
+   steps: [PAccept] = hooks' verdict, status ok, index insert with Close() started on the
+   displaced session; the read loop is started by the session's own first reader step, any time
+   later (the accepting goroutine may be parked inside the insert while the displaced session's
+   Close waits for its handlers), so further accepts, SetIDs and Closes interleave in between. *)
 From Coq Require Import Strings.String Strings.Byte.
 From Coq Require Import List Arith NArith Bool Lia.
 From Verif Require Import Model.Lifecycle Model.CallLife Model.Graceful
@@ -111,6 +115,27 @@ Theorem C07_disconnect_hook_once_prefix_refuted :
             terminal_cfg cfg_nocas s = true.
 Proof. exact hook_once_prefix_refuted_lemma. Qed.
 Print Assumptions C07_disconnect_hook_once_prefix_refuted.
+
+(* accept order "index insert first, status ok afterwards by a plain store" (serveListener before
+   6514bc6; the seeded change C07-r2m2 puts it into ServeConn): O serves a handler, A is accepted
+   under O's id and its goroutine parks in O's Close, B is accepted under the same id and closes
+   A (active-closed, notified, hook ran), then A's goroutine carries on: A is ok again, and ends
+   passive-closed with the hook run twice *)
+Theorem C07_closed_absorbing_prefix_refuted :
+  (exists p s, prun_cfg cfg_noacc peer0 (firstn 21 resurrect_history) = Some p /\
+               nth_error (sessions p) 1 = Some s /\ st s = ActiveClosed /\ notified s = 1 /\ hooks s = 1) /\
+  (exists p s, prun_cfg cfg_noacc peer0 resurrect_history = Some p /\
+               nth_error (sessions p) 1 = Some s /\ st s = Ok /\ notified s = 1) /\
+  (exists p s, prun_cfg cfg_noacc peer0
+                 (resurrect_history ++ [PSess 1 (EReader true); PSess 1 (EFrame FrErr)] ++ repeat (PSess 1 (EReader true)) 9) = Some p /\
+               nth_error (sessions p) 1 = Some s /\ st s = PassiveClosed /\ hooks s = 2).
+Proof. exact closed_absorbing_prefix_refuted_lemma. Qed.
+Print Assumptions C07_closed_absorbing_prefix_refuted.
+
+Example C07_resurrect_fixed :
+  exists p s, prun peer0 (resurrect_history ++ [PSess 1 (EReader true)] ++ repeat (PSess 1 (EReader true)) 2) = Some p /\
+              nth_error (sessions p) 1 = Some s /\ st s = ActiveClosed /\ hooks s = 1 /\ rd s = RDone.
+Proof. exact resurrect_fixed. Qed.
 
 (* Non-vacuity: the same two histories on the repaired machine reach quiescent states in
    which the premises of the theorems above hold. *)
